@@ -18,6 +18,10 @@ pub struct Case {
     pub ops: Vec<Op>,
     pub salt: u64,
     pub frame_max: u32,
+    /// which channel id the operations run on: 0 = whatever open_channel(None) gives (1),
+    /// 1 = 255, 2 = 256, 3 = 65534, 4 = 65535 (the server then offers channel_max 0 = no limit)
+    #[serde(default)]
+    pub channel_sel: u8,
 }
 
 /// Compare a channel's actual frames with the expected list. Body frames are compared by
@@ -100,7 +104,18 @@ pub fn exec(c: &Case) -> Outcome {
         frame_max: c.frame_max,
         ..Default::default()
     };
-    let mut sess = open_session(&ccfg, ServerCfg::default(), vec![], AutoBroker::new(c.salt));
+    let explicit_id: Option<u16> = match c.channel_sel % 5 {
+        0 => None,
+        1 => Some(255),
+        2 => Some(256),
+        3 => Some(65534),
+        _ => Some(65535),
+    };
+    let scfg = ServerCfg {
+        channel_max: if explicit_id.is_some() { 0 } else { ServerCfg::default().channel_max },
+        ..Default::default()
+    };
+    let mut sess = open_session(&ccfg, scfg, vec![], AutoBroker::new(c.salt));
     let mut conn = match sess.conn.take() {
         Some(c) => c,
         None => {
@@ -125,7 +140,7 @@ pub fn exec(c: &Case) -> Outcome {
     });
     let case = c.clone();
     let res = timed(CALL_TIMEOUT * 4, "avh-c12", move || {
-        let chan = conn.open_channel(None).map_err(|e| format!("{:?}", e))?;
+        let chan = conn.open_channel(explicit_id).map_err(|e| format!("{:?}", e))?;
         let other = if need_other { Some(conn.open_channel(None).map_err(|e| format!("{:?}", e))?) } else { None };
         let ids = (chan.channel_id(), other.as_ref().map(|o| o.channel_id()));
         let mut results = Vec::new();
@@ -241,8 +256,9 @@ fn strat(_t: Tier) -> BoxedStrategy<Case> {
         vec(op_strategy(9000, true, true), 1..14),
         any::<u64>(),
         prop_oneof![Just(0u32), Just(4096u32), Just(8192u32)],
+        prop_oneof![8 => Just(0u8), 1 => 1u8..=4],
     )
-        .prop_map(|(ops, salt, frame_max)| Case { ops, salt, frame_max })
+        .prop_map(|(ops, salt, frame_max, channel_sel)| Case { ops, salt, frame_max, channel_sel })
         .boxed()
 }
 
@@ -262,6 +278,7 @@ fn enumerate(_t: Tier) -> Vec<Case> {
                     }],
                     salt: 99,
                     frame_max: 0,
+                    channel_sel: 0,
                 });
             }
         }
@@ -272,7 +289,7 @@ fn enumerate(_t: Tier) -> Vec<Case> {
 pub fn parts() -> Vec<Box<dyn PartDyn>> {
     vec![Box::new(Part::<Case> {
         name: "e2e",
-        rule: "programs of 1-13 ops drawn from every public entry point of Channel/Queue/Exchange/Consumer/Delivery/Get (all wrapper levels, all boolean options, arbitrary short strings, field tables, numerics; exchange-to-exchange bind/unbind through Channel and through either Exchange handle, the handle passed as argument obtained on the same or on another channel; settle ops through Delivery/Get/Consumer on the same and on a different channel, all 48 settle variants also enumerated) run on the mock transport against a deterministic broker; oracle: an independently written expectation table maps each op to the exact method frames (and the return value) it must produce, the decoded wire per channel must equal their concatenation, cross-channel settles must panic and send nothing; every executed case is non-trivial, the class table counts entry point x flag vector pairs; distinct by case hash",
+        rule: "programs of 1-13 ops drawn from every public entry point of Channel/Queue/Exchange/Consumer/Delivery/Get (all wrapper levels, all boolean options, arbitrary short strings, field tables, numerics; exchange-to-exchange bind/unbind through Channel and through either Exchange handle, the handle passed as argument obtained on the same or on another channel; settle ops through Delivery/Get/Consumer on the same and on a different channel, all 48 settle variants also enumerated) run on the mock transport against a deterministic broker, on channel 1 or (one program in nine) on channel 255, 256, 65534 or 65535; oracle: an independently written expectation table maps each op to the exact method frames (and the return value) it must produce, the decoded wire per channel must equal their concatenation, cross-channel settles must panic and send nothing; every executed case is non-trivial, the class table counts entry point x flag vector pairs; distinct by case hash",
         cases: |t| t.pick(3000, 60_000),
         threads: 16,
         strategy: strat,
